@@ -428,6 +428,66 @@ class CtxRecorder:
                 hl=hl, tl=tl, extra=extra, undirected=undirected)
 
 
+    # ------------------------------------------------ very large lattices (relational clauses, no oracle lattice)
+    def rel_base(self):
+        lat = self.ctx.lattice
+        ms = self.members
+        self.ev('rel.base', exts=[self.ext(c) for c in ms], index=[c.index for c in ms],
+                dindex=[c.dindex for c in ms], latatoms=[self._ids.get(id(a), -1) for a in lat.atoms],
+                inf=self._ids.get(id(lat.infimum), -1), sup=self._ids.get(id(lat.supremum), -1))
+
+    def _spread(self, rng, k):
+        N = len(self.members)
+        pts = {0, 1, 2, N - 1, N - 2, N // 2} | {p for p in (255, 256, 257, 511, 512, 513, 65535, 65536) if p < N}
+        pts |= set(rng.sample(range(N), min(k, N)))
+        return sorted(p for p in pts if 0 <= p < N)
+
+    def rel_order(self, rng):
+        self.ev('rel.order', xs=self._spread(rng, 12))
+
+    def rel_pred(self, rng):
+        ms = self.members
+        xs = self._spread(rng, 6)
+        for name, fn in self.PREDS:
+            self.ev('rel.pred', name=name, xs=xs, rows=[[j for j, y in enumerate(ms) if fn(ms[x], y)] for x in xs])
+
+    def rel_joinmeet(self, rng):
+        lat = self.ctx.lattice
+        ms = self.members
+        N = len(ms)
+        self.members
+        for a, b2 in pick_pairs(N, rng, 60)[:400]:
+            for name, form in (('join', 'nary'), ('meet', 'op'), ('join', 'op'), ('meet', 'nary')):
+                x, y = ms[a], ms[b2]
+                if form == 'nary':
+                    r = getattr(lat, name)(self.arg([x, y]))
+                else:
+                    r = (x | y) if name == 'join' else (x & y)
+                self.ev('rel.joinmeet', name=name, form=form, args=[a, b2], res=self._ids.get(id(r), -1),
+                        same=id(r) in self._ids)
+
+    def rel_traverse(self, rng):
+        lat = self.ctx.lattice
+        ms = self.members
+        N = len(ms)
+        for x in self._spread(rng, 4)[:12]:
+            for name, it, key, up in (('upset', ms[x].upset(), 'index', True), ('downset', ms[x].downset(), 'dindex', False)):
+                res = list(itertools.islice(it, 2 * N + 8))
+                self.ev('rel.traverse', name=name, up=up, seeds=[x], res=[self._ids.get(id(c), -1) for c in res],
+                        rank=[getattr(c, key) for c in res])
+        y, z = rng.randrange(N), rng.randrange(N)
+        for name, it, key, up in (('upset_union', lat.upset_union([ms[y], ms[z], ms[y]]), 'index', True),
+                                  ('downset_union', lat.downset_union(iter([ms[y], ms[z]])), 'dindex', False)):
+            res = list(itertools.islice(it, 2 * N + 8))
+            self.ev('rel.traverse', name=name, up=up, seeds=[y, z], res=[self._ids.get(id(c), -1) for c in res],
+                    rank=[getattr(c, key) for c in res])
+
+    def rel_labels(self, rng):
+        ms = self.members
+        self.ev('rel.labels', olabelled=[[i, self.O(c.objects)] for i, c in enumerate(ms) if c.objects],
+                plabelled=[[i, self.P(c.properties)] for i, c in enumerate(ms) if c.properties],
+                atoms=[[x, [self._ids.get(id(a), -1) for a in ms[x].atoms]] for x in self._spread(rng, 40)])
+
     # ------------------------------------------------------------------ C15
     def _lat_obs(self, ctx, omap, pmap, pairs_of):
         """Observation of a lattice in a given coordinate system (label -> position maps)."""
@@ -451,6 +511,30 @@ class CtxRecorder:
         g1 = [[O(x.members()), P(i.members())] for x, i in alg.fast_generate_from(ctx)]
         g2 = [[O(x.members()), P(i.members())] for x, i in alg.fcbo_dual(ctx)]
         return c, cov, jm, rel, g1, g2
+
+    def rel_lite(self, rng):
+        """Row / column permutation of a very large lattice: the same label-level joins and meets on both sides."""
+        C = self.C
+        ol, pl = list(self.olabels), list(self.plabels)
+        ol.reverse()
+        rng.shuffle(pl)
+        ctx2 = C.Context(*self.ctx.definition().take(objects=ol, properties=pl, reorder=True))
+        ms1 = self.members
+        L2 = ctx2.lattice
+        N = len(ms1)
+        idx = [(a, b2) for a in self._spread(rng, 25) for b2 in self._spread(rng, 25)]
+
+        def obs(pairs):
+            out = []
+            for a, b2 in pairs:
+                j, mt = a | b2, a & b2
+                out.append([self.O(a.extent), self.O(b2.extent), self.O(j.extent), self.O(mt.extent),
+                            self.P(a.intent), self.P(b2.intent), self.P(j.intent), self.P(mt.intent)])
+            return out
+        jm1 = obs([(ms1[a], ms1[b2]) for a, b2 in idx])
+        jm2 = obs([(L2(ms1[a].intent), L2(ms1[b2].intent)) for a, b2 in idx])
+        self.ev('rel', kind='perm-lite', t2={'n': 1, 'm': 1, 'rows': [[]]}, c1=[], c2=[], jm1=jm1, jm2=jm2,
+                n1=N, n2=len(L2))
 
     def rel(self, kind, rng, i=None, j=None, perm=None):
         C = self.C
@@ -621,6 +705,14 @@ def drive(rec, table, b, families, rng, exhaustive_queries, nsub=10, nmulti=12, 
     if table.tag.startswith(('widecontra', 'wideanti', 'widerand', 'giant')):
         # astronomically many concepts (or a giant axis): derivations only; the giant tables keep the generators
         families = families - lattice_fams - ({'C05'} if table.tag.startswith('giant') else {'C04', 'C05'})
+    if table.tag.startswith('colossal'):
+        # very large lattice: relational families only (TraceCtx TrRel*), the library's own lattice as base
+        T(rec.rel_base)
+        for fam, fn in (('C06', rec.rel_order), ('C07', rec.rel_joinmeet), ('C08', rec.rel_pred),
+                        ('C09', rec.rel_traverse), ('C10', rec.rel_labels), ('C15', rec.rel_lite)):
+            if fam in families:
+                T(fn, rng)
+        return
     nolattice = table.tag.startswith(('widecontra', 'wideanti', 'widerand', 'giant'))
     if 'C05' in families and b % 2 == 0:
         # the lazy lattice is state: query the covers BEFORE it is computed on half of the behaviours ...
